@@ -145,7 +145,22 @@ where
 
 /// serde-deriving types that no public API can produce (reviewed by hand); they
 /// are still exercised when they sit inside a reachable type
-pub const UNREACHABLE: &[&str] = &[];
+pub const UNREACHABLE: &[&str] = &[
+    // algorithms/linfa-clustering/src/appx_dbscan/ is not compiled at all: lib.rs has no
+    // `mod appx_dbscan;` and the public `AppxDbscan*` names are type aliases of exact DBSCAN
+    // (which IS covered, through the aliases too)
+    "AppxDbscan",
+    "Cell",
+    "CellsGrid",
+    "CoreCellInfo",
+    "IntersectionType",
+    "StatusPoint",
+    "TreeStructure",
+    // linfa-kernel: the derive is bounded by `KernelInner<K1, K2>: Serialize`, and KernelInner
+    // implements neither trait, so no Kernel value can be serialised (a compile error, not a
+    // run-time behaviour); kernels are covered by C20 scenarios only
+    "KernelBase",
+];
 
 pub fn repo_root() -> std::path::PathBuf {
     std::env::var_os("LINFA_REPO").map(Into::into).unwrap_or_else(|| "/repo".into())
